@@ -504,7 +504,10 @@ def run(ctx):
                 "six reindex_* orders (with the real SortTracksActions), primaries "
                 "inserted mid-flight, outside-world primaries (errored at initialisation), "
                 "errored/killed/unchanged outcomes, 0..6 secondaries per track with cleared ones, "
-                "capacity errors followed by reset, reseed at idle; 4/5 in the Stepper's action "
+                "capacity errors followed by reset, reseed at idle; 1/4 of the scripts are boundary "
+                "scripts that put queued+primaries and queued+new secondaries at capacity-1, "
+                "capacity and capacity+1 (oracle: error <=> requirement > capacity, keys "
+                "capacity-error-without-overflow / capacity-overflow-not-detected); 4/5 in the Stepper's action "
                 "order, 1/5 driven as TrackInit.test.cc does (parent-copy branch live); a script "
                 "is non-trivial if it completed at least one end-of-step action; distinct = "
                 "distinct scripts; every dump line is one evaluation",
